@@ -587,7 +587,7 @@ pub fn worker(prop: &'static str, args: &[String]) -> i32 {
 
 /// parent side: run the worker in the hooks-off build and fold its result in as a stage
 fn shipping_stage(prop: &str, tier: &str, rep: &mut Report) -> Option<crate::util::pool::PoolResult> {
-  if std::env::var("GBMC_CHILD_OUT").is_ok() {
+  if std::env::var("GBMC_CHILD_OUT").is_ok() || std::env::var("GBMC_FAST").is_ok() {
     return None; // this is itself a rerun in another build profile; the parent runs stage (g)
   }
   let bin = match std::env::var("GBMC_PLAIN_BIN") {
